@@ -222,6 +222,31 @@ def _typed_cases():
         cases.append((f"gstm(df={v!r})", (lambda v=v: data.gstm(n=8, df=v, random_state=0)), want))
     for v, want in [(1, True), (0, False), (2.5, False)]:
         cases.append((f"celeux_two(n={v!r})", (lambda v=v: data.celeux_two(n=v, random_state=0)), want))
+    # real-valued hyper-parameters of the estimators: a positive value is in the domain whatever numeric type carries it
+    lin = loader.real("linear._linear_geminis")
+    sp_l, sp_m = loader.real("sparse._linear_sparse"), loader.real("sparse._mlp_sparse")
+    dg = loader.real("tree.douglas")
+    npm = loader.real("nonparametric._categorical_models")
+    mlp = loader.real("mlp._mlp_geminis")
+    reals = [("Douglas", dg.Douglas, "temperature"), ("RIM", lin.RIM, "reg"), ("KernelRIM", lin.KernelRIM, "reg"), ("SparseLinearMMD", sp_l.SparseLinearMMD, "alpha"),
+             ("SparseMLPMMD", sp_m.SparseMLPMMD, "alpha"), ("SparseMLPMMD", sp_m.SparseMLPMMD, "M"), ("LinearModel", lin.LinearModel, "learning_rate"), ("Douglas", dg.Douglas, "learning_rate")]
+    for cname, cls, pname in reals:
+        for v in (0.5, 2.0, 1, np.int64(2), np.float32(0.5), np.float64(2.0)):
+            cases.append((f"{cname}({pname}={type(v).__name__}:{v!r})", (lambda cls=cls, pname=pname, v=v: cls(**{pname: v})._validate_params()), True))
+        for v in (-1.0, "a", None):
+            cases.append((f"{cname}({pname}={v!r})", (lambda cls=cls, pname=pname, v=v: cls(**{pname: v})._validate_params()), False))
+    # kernel / metric option sets of every convenience estimator: the documented names (scikit-learn's + 'precomputed'), nothing shorter
+    from sklearn.metrics.pairwise import PAIRWISE_KERNEL_FUNCTIONS
+    kern = [("LinearMMD", lin.LinearMMD), ("MLPMMD", mlp.MLPMMD), ("SparseLinearMMD", sp_l.SparseLinearMMD), ("SparseMLPMMD", sp_m.SparseMLPMMD), ("CategoricalMMD", npm.CategoricalMMD)]
+    for cname, cls in kern:
+        for v in sorted(PAIRWISE_KERNEL_FUNCTIONS) + ["precomputed"]:
+            cases.append((f"{cname}(kernel={v!r})", (lambda cls=cls, v=v: cls(kernel=v)._validate_params()), True))
+        for v in ("p", "d", "r", "precompute", "RBF", "", 3):
+            cases.append((f"{cname}(kernel={v!r})", (lambda cls=cls, v=v: cls(kernel=v)._validate_params()), False))
+    met = [("LinearWasserstein", lin.LinearWasserstein), ("MLPWasserstein", mlp.MLPWasserstein), ("CategoricalWasserstein", npm.CategoricalWasserstein)]
+    for cname, cls in met:
+        for v, want in [("euclidean", True), ("cosine", True), ("manhattan", True), ("precomputed", True), ("p", False), ("nope", False)]:
+            cases.append((f"{cname}(metric={v!r})", (lambda cls=cls, v=v: cls(metric=v)._validate_params()), want))
     return cases
 
 
